@@ -149,7 +149,7 @@ def do_check(mod, pid, modname, seed, args):
         for key, lst in sorted(agg.by_key.items()):
             kf = known.get(key)
             if kf is not None and kf["status"] == "known":
-                known_seen[key] = (kf, len(lst))
+                known_seen[key] = (kf, agg.key_counts.get(key, len(lst)))
             else:
                 new_keys.append(key)
         for key, (kf, cnt) in sorted(known_seen.items()):
@@ -159,7 +159,7 @@ def do_check(mod, pid, modname, seed, args):
         reported = set()
         budget_keys = new_keys[:16]
         for key in budget_keys:
-            index, case, viol = agg.by_key[key][0]
+            index, case, viol = min(agg.by_key[key], key=lambda t: t[0])
             small, sviol, digest = case, viol, agg.digests.get(index)
             if not args.no_shrink:
                 try:
@@ -173,7 +173,7 @@ def do_check(mod, pid, modname, seed, args):
             if kf is not None and kf["status"] == "known":
                 # the minimal form of this violation is a listed finding (the original key was a consequence of it)
                 if fkey not in known_seen:
-                    known_seen[fkey] = (kf, len(agg.by_key[key]))
+                    known_seen[fkey] = (kf, agg.key_counts.get(key, 0))
                     print(f"KNOWN-FINDING: property={pid} {fkey} -- {kf['what']} (seen as {key})")
                 continue
             reported.add(fkey)
@@ -184,7 +184,7 @@ def do_check(mod, pid, modname, seed, args):
                 json.dump({"property": pid, "seed": seed, "index": index, "tier": tier, "violation": sviol,
                            "digest": digest, "case": small, "original_case_size": shrink.size(case),
                            "minimised_case_size": shrink.size(small), "original_key": key,
-                           "occurrences_in_this_run": len(agg.by_key[key])}, f, indent=1, sort_keys=True)
+                           "occurrences_in_this_run": agg.key_counts.get(key, 0)}, f, indent=1, sort_keys=True)
             # confirm in a fresh child before reporting
             st, res = runner.run_in_child(runner.run_case_entry, (mod, small))
             if st != "ok" or fkey not in [v["key"] for v in res["violations"]]:
@@ -203,7 +203,7 @@ def do_check(mod, pid, modname, seed, args):
         if not args.no_evidence:
             write_evidence(mod, pid, tier, seed, n, agg, wall, known_seen, new_keys, pool.workers)
         print(f"{pid} {tier}: {n} runs, {len(agg.sigs)} distinct non-trivial traces, "
-              f"{sum(len(v) for v in agg.by_key.values())} violating runs "
+              f"{sum(agg.key_counts.values())} violation reports "
               f"({len(known_seen)} known keys, {len(new_keys)} new), sim {agg.simtime:.0f}s, wall {wall:.1f}s")
         return exit_code
     finally:
@@ -216,6 +216,7 @@ class Aggregate:
         self.pid = pid
         self.n = 0
         self.by_key = {}
+        self.key_counts = {}
         self.sigs = set()
         self.counters = {}
         self.probes = {}
@@ -253,8 +254,16 @@ class Aggregate:
             self.trivial += 1
         for v in res["violations"]:
             self.by_key.setdefault(v["key"], [])
-            if len(self.by_key[v["key"]]) < 50:
-                self.by_key[v["key"]].append((i, res["case"], v))
+            lst = self.by_key[v["key"]]
+            self.key_counts[v["key"]] = self.key_counts.get(v["key"], 0) + 1
+            if len(lst) < 50:
+                lst.append((i, res["case"], v))
+            else:
+                # keep the 50 lowest run indices, so that the reported representative does not depend on the order in
+                # which the worker processes happen to finish
+                j = max(range(len(lst)), key=lambda q: lst[q][0])
+                if i < lst[j][0]:
+                    lst[j] = (i, res["case"], v)
         # samples: one with faults, one minimal, most eventful
         ev = res.get("events", 0)
         c = res.get("case_small")
